@@ -4,7 +4,7 @@ set -e
 cd "$(dirname "$0")/.."
 mkdir -p evidence replays
 for f in spec/*.tla; do
-  java -cp /opt/veriftools/tla/tla2tools.jar:/opt/veriftools/tla/CommunityModules-deps.jar -DTLA-Library=spec tla2sany.SANY "$f" > /tmp/cijverif.sany.$$ 2>&1 || { cat /tmp/cijverif.sany.$$; rm -f /tmp/cijverif.sany.$$; echo "SANY failed on $f"; exit 1; }
+  java -cp /opt/veriftools/tla/tla2tools.jar:/opt/veriftools/tla/CommunityModules-deps.jar -DTLA-Library=spec:spec/stubs tla2sany.SANY "$f" > /tmp/cijverif.sany.$$ 2>&1 || { cat /tmp/cijverif.sany.$$; rm -f /tmp/cijverif.sany.$$; echo "SANY failed on $f"; exit 1; }
   if grep -q "Semantic errors\|Parse Error\|Fatal errors" /tmp/cijverif.sany.$$; then cat /tmp/cijverif.sany.$$; rm -f /tmp/cijverif.sany.$$; echo "SANY failed on $f"; exit 1; fi
 done
 rm -f /tmp/cijverif.sany.$$
